@@ -52,7 +52,7 @@ def reference_constants():
 class Atoms:
     """Numeric values of the atoms of spec/Units.tla for one (adsorbate, temperature, material)."""
 
-    def __init__(self, adsorbate=None, temp=None, material=None, tables="impl"):
+    def __init__(self, adsorbate=None, temp=None, material=None, tables="impl", reference_backend=True):
         import pygaps.units.converter_unit as cu
         self.vals = {"hundred": 100.0}
         if tables == "impl":
@@ -64,7 +64,15 @@ class Atoms:
             for u, val in tab.items():
                 self.vals[f"{kind}:{u}"] = float(val)
         self.unavailable = {}
-        if adsorbate is not None:
+        self.source = "adsorbate methods"
+        direct = None
+        if adsorbate is not None and reference_backend:
+            direct = coolprop_direct(adsorbate, temp)
+        if direct is not None:
+            # independent reference: the thermodynamic backend queried directly, not through Adsorbate
+            self.vals.update(direct)
+            self.source = "CoolProp queried directly"
+        elif adsorbate is not None:
             for atom, fn in (
                 ("psat", lambda: adsorbate.saturation_pressure(temp)),
                 ("M", lambda: adsorbate.molar_mass()),
@@ -93,6 +101,28 @@ class Atoms:
                 return None
             r *= self.vals[a] ** int(k)
         return r
+
+
+def coolprop_direct(adsorbate, temp):
+    """psat / M / densities of a backend-linked adsorbate straight from CoolProp (library units: Pa, g/mol,
+    g/cm3, mol/cm3); None when the adsorbate has no backend or the state is not available."""
+    try:
+        name = adsorbate.properties.get("backend_name")
+        if not name:
+            return None
+        import CoolProp as CP
+        st = CP.AbstractState("HEOS", name)
+        out = {"M": st.molar_mass() * 1000.0}
+        st.update(CP.QT_INPUTS, 0.0, temp)
+        out["psat"] = st.p()
+        out["rhoLmass"] = st.rhomass() / 1000.0
+        out["rhoLmol"] = st.rhomolar() / 1e6
+        st.update(CP.QT_INPUTS, 1.0, temp)
+        out["rhoGmass"] = st.rhomass() / 1000.0
+        out["rhoGmol"] = st.rhomolar() / 1e6
+        return out
+    except Exception:
+        return None
 
 
 def n2():
